@@ -1730,7 +1730,7 @@ func processStats(stats *SegStats, inNumType SS_IntUintFloatTypes, intVal int64,
 			stats.NumStats.Sum.FloatVal = stats.NumStats.Sum.FloatVal + float64(inIntgrVal)
 		} else {
 			// incoming non-float, stored is non-float, simple sum
-			stats.NumStats.Sum.IntgrVal = stats.NumStats.Sum.IntgrVal + inIntgrVal
+			stats.NumStats.Sum.AddToIntSum(inIntgrVal)
 		}
 	}
 }
